@@ -499,6 +499,7 @@ class World:
         del VLOG[:]
         if self.plaintexts is not None:
             collect_strings({k: v for k, v in ev.items() if k in ("v", "kw", "tree", "o")}, self.plaintexts)
+            KNOWN_PLAINTEXTS[:] = sorted(self.plaintexts)  # (Query projects digests inside the step)
         res = {"out": "ok", "errpath": None}
         try:
             if op in ("SetAttr", "SetItem"):
